@@ -349,7 +349,11 @@ func (s *v4Server) addLease(l *dhcpsvc.Lease) (err error) {
 	s.ipIndex[l.IP] = l
 
 	s.leases = append(s.leases, l)
-	s.leasedOffsets.set(offset, true)
+	if inOffset {
+		// Static leases may be outside of the range, so don't mark the offset
+		// of those as leased.
+		s.leasedOffsets.set(offset, true)
+	}
 
 	return nil
 }
